@@ -32,11 +32,11 @@ def bounds(ctx):
     scr = dict(Adaptives=[True], Screenings=[True], Windows=[1], RetrySet=[0], MulExps=[1], Deltas=[0], MaxRefusals=0)
     models = [
         ("StepCtl[C13 alpha, beta, tolerance grid]",
-         dict(scr, MaxIters=[1, 2] if q else [1, 2, 3], TolExps=[7, 10], AlphaExps=[0, 1], BetaQs=[2, 4], Kicks=[1, 2, 3, 5],
-              MaxSteps=2), INV, PROP, ACTIONS),
+         dict(scr, MaxIters=[1, 2] if q else [1, 2, 3], TolExps=[7, 10], AlphaExps=[0, 1], BetaQs=[2, 4],
+              Kicks=[1, 2, 3, 5] if q else [1, 2, 3, 4, 5, 6], MaxSteps=2), INV, PROP, ACTIONS),
         ("StepCtl[C13 beta 1/4, 3/4, alpha 1/4]",
-         dict(scr, MaxIters=[2], TolExps=[7], AlphaExps=[2], BetaQs=[1, 3], Kicks=[1, 3, 4] if q else [1, 2, 3, 4], MaxSteps=2),
-         INV, PROP, ACTIONS),
+         dict(scr, MaxIters=[2], TolExps=[7], AlphaExps=[2], BetaQs=[1, 3], Kicks=[1, 3, 4] if q else [1, 2, 3, 4],
+              MaxSteps=2 if q else 3), INV, PROP, ACTIONS),
         ("StepCtl[C13 with refusals, fixed step]",
          dict(Adaptives=[True, False], Screenings=[True], Windows=[1], RetrySet=[1], MulExps=[1], Deltas=[0, 1024],
               MaxIters=[1, 2], TolExps=[7], AlphaExps=[0], BetaQs=[2], Kicks=[1, 3], MaxSteps=3, MaxRefusals=2),
@@ -49,8 +49,8 @@ def bounds(ctx):
     canaries = [("MTestPrev", small, "ConvergedStops"), ("MTestPrev", small, "AcceptedStepConverged"),
                 ("MReturnUnconverged", small, "AcceptedStepConverged"), ("MReturnUnconverged", small, "NonConvergenceRaises")]
     exports = [
-        ("screening", dict(scr, MaxIters=[1, 2], TolExps=[7], AlphaExps=[0, 1], BetaQs=[2, 4], Kicks=[1, 2, 3, 5] if not q else [1, 2, 3],
-                           MaxSteps=2)),
+        ("screening", dict(scr, MaxIters=[1, 2] if q else [1, 2, 3], TolExps=[7], AlphaExps=[0, 1], BetaQs=[2, 4],
+                           Kicks=[1, 2, 3, 5] if not q else [1, 2, 3], MaxSteps=2)),
         ("screening beta 1/4", dict(scr, MaxIters=[2], TolExps=[10], AlphaExps=[2], BetaQs=[1, 3], Kicks=[1, 3, 4], MaxSteps=2)),
         ("screening with refusals", dict(Adaptives=[True, False], Screenings=[True], Windows=[1], RetrySet=[1], MulExps=[1],
                                          Deltas=[0, 1024], MaxIters=[1], TolExps=[7], AlphaExps=[0], BetaQs=[2], Kicks=[1, 3],
@@ -124,7 +124,7 @@ def run(ctx):
     fams = sc.export_many(ctx, exports)
     kjobs = kernel_part(ctx)
     rnd = random.Random(ctx.seed)
-    per = 400 if ctx.quick else 6000
+    per = 400 if ctx.quick else 25000
     scripts = []
     exhaustive = True
     for fam in fams:
